@@ -17,12 +17,15 @@ PLAN = dict(
                     "executable property on the REAL checker's answer with the independent declarative checker Sem.FunTyping.has_type_b as arbiter: "
                     "rejection of a spec-typed program = VIOL rejects-well-typed, acceptance of a spec-rejected program = VIOL accepts-ill-typed:<class>, "
                     "accepted mutants that the spec types are SKIPped; on accept all annotations present and the checked definitions erase to the parsed ones "
-                    "up to clause order. theorems: see Props/C15.v (soundness refuted by witnesses confirmed on the real checker; soundness and completeness proved "
+                    "up to clause order. theorems: see Props/C15.v (soundness and completeness proved "
                     "on the fragment without type parameters; regression statements for the instance-order defect fixed by d524b1f; annotation/erasure, rejection of mutation classes by the specification for all programs and sites). "
-                    "round 2 (polymorphic fragment): soundness under the boolean guards prog_names_ok (identifier-like names; tested on every compared input: BAD otherwise) and decl_types_wf "
-                    "(complement of the known finding), completeness and exactness for all programs with identifier-like names; printed instance names injective; instance table: names distinct, every "
+                    "round 2 (polymorphic fragment): soundness, completeness and exactness for all programs with identifier-like names (prog_names_ok; tested on every compared input: BAD otherwise) - the checker decides the rules "
+                    "(C15_check_exact_poly_partial, C15_check_decides); the former second guard decl_types_wf is established by the checker since fix <commit15> (Ty::check_template checks declaration types completely, without instantiating: "
+                    "C15_check_accepts_only_wf_declarations, C15_check_template_exact, C15_nonregular_declaration_accepted); regression theorems about old_check_decls (the code before that fix: unsound, C15_regression_old_check_decls_unsound) "
+                    "and old_check_main (before fix <commit12>: main of a non-integer type accepted; now rule main : i64 in spec and checker, C15_check_main_i64); the former witnesses corpus/fun/c15-ill-accepted-*.sc, c12_main_nonint.sc are "
+                    "inputs tagged ill (a recurrence = VIOL accepts-ill-typed:ill); printed instance names injective; instance table: names distinct, every "
                     "declaration an instantiated template, defs_closed proved and evaluated on the REAL output (VIOL class=output-not-closed), full closure refuted (corpus/fun/c15_unused_*.sc); "
-                    "a wrong number of type arguments rejected by the checker at every site (signature, let, destructor, case, constructor, new, Ty::check; declaration fields: spec rejects, checker refuted = known finding); "
+                    "a wrong number of type arguments rejected by the checker at every site (signature, let, destructor, case, constructor, new, Ty::check, declaration fields); "
                     "tags dt-wf/dt-ill, closed-full/closed-part; scopes: the context of a clause body is exactly outer context ++ own binders (C15_clause_context_exact), names used outside their scope are rejected by rules and checker (C15_reject_scope_leak, C15_check_rejects_scope_leak)",
         assumptions=["sexp::dbg renders the parsed and checked programs faithfully (Debug output of the crates' own types)",
                      "the mutation operators are edits of the parsed AST (fun::syntax::program::Program), not of source text: programs the parser "
